@@ -271,6 +271,63 @@ def check_fetch(ctx, reader, r, kind, witness):
         ctx.violation('get_recording_metadata raised %s for a saved id on %s cassette' % (type(ex).__name__, kind), w)
 
 
+def _nest(kind, depth):
+    from vlib.values import Obj
+    v = 'bottom'
+    for i in range(depth):
+        v = [v] if kind == 'list' else ({'next': v} if kind == 'dict' else (Obj(leg=i, next=v) if kind == 'object' else ([v] if i % 2 else {'n': v})))
+    return v
+
+
+RESERVED_LOOKING = ['_id', 'id', '_recording_id', 'recording_id', 'metadata', '_data', 'data', '_category', 'category', '_key', '_recording',
+                    '_meta', '__metadata', '_metadata_', '_full', 'py/tuple_', 'json://x', '_version', '_created', '_timestamp', '_incomplete']
+
+
+def directed_case(ctx, which, kind, prefix):
+    """Shapes a random store rarely has: (deep) values nested 30..120 levels (linked route legs, trees); (reserved) data keys that look
+    like names a storage envelope might use for itself; (many) more than ten thousand recordings in one cassette."""
+    from playback.exceptions import NoSuchRecording
+    witness = {'directed': which, 'kind': kind, 'prefix': prefix}
+    with open_box(kind, prefix=prefix) as box:
+        cas = box.cassette
+        recs = []
+        if which == 'deep':
+            for depth in (30, 60, 96, 100, 105, 120):
+                data = {'%s-%d' % (sh, depth): _nest(sh, depth) for sh in ('list', 'dict', 'object', 'mixed') if not (sh == 'object' and depth > 105)}
+                md = {'depth': depth, 'md_nested': _nest('mixed', min(depth, 60))}
+                if not recording_in_domain(data, md):
+                    ctx.count('deep_values_out_of_serializer_domain')
+                    continue
+                recs.append({'category': 'Deep', 'data': data, 'metadata': md})
+        elif which == 'reserved':
+            recs.append({'category': 'Op', 'data': {k: ['value of', k] for k in RESERVED_LOOKING}, 'metadata': {'id': 'not-the-id', '_id': 5, 'k': 1}})
+            for k in RESERVED_LOOKING[:8]:
+                recs.append({'category': 'Op', 'data': {k: {'only': k}}, 'metadata': {}})
+        elif which == 'many':
+            n = 10050 if (kind == 'memory' or not ctx.quick) else 300
+            for i in range(n):
+                recs.append({'category': 'Bulk', 'data': {'i': i}, 'metadata': {'i': i}})
+        for r in recs:
+            rec = cas.create_new_recording(r['category'])
+            r['id'] = rec.id
+            for k, v in r['data'].items():
+                rec.set_data(k, v)
+            rec.add_metadata(r['metadata'])
+            r['model'] = (fresh(r['data']), fresh(r['metadata']))
+            try:
+                cas.save_recording(rec)
+            except Exception as ex:
+                ctx.violation('saving a recording whose keys and values the serializer handles raised %s on %s cassette' % (type(ex).__name__, kind),
+                              dict(witness, error=repr(ex)[:200], keys=sorted(r['data'])[:5]))
+                return
+        ctx.case(witness, nontrivial=bool(recs))
+        ctx.count('directed_%s_recordings_saved' % which, len(recs))
+        reader = box.reader()
+        probe = recs if which != 'many' else [recs[0], recs[1], recs[len(recs) // 2], recs[-1]] + recs[::997]
+        for r in probe:
+            check_fetch(ctx, reader, r, kind, witness)
+
+
 def judge_concurrent(ctx, cassette, ids, kind, w):
     from playback.exceptions import NoSuchRecording
     for (i, k), rid in sorted(ids.items()):
@@ -293,6 +350,10 @@ def run(ctx):
         for kind, nt, per in (('memory', 2, 2), ('file', 2, 1), ('file', 3, 1), ('memory', 3, 1)):
             concsaves.explore(ctx, kind, nt, per, judge_concurrent, ctx.quick)
         concsaves.explore_resave_fetch(ctx, ctx.quick)
+    if ctx.shard == 0:
+        for kind, prefix in CONFIGS:
+            for which in ('deep', 'reserved', 'many'):
+                directed_case(ctx, which, kind, prefix)
     n = ctx.budget(300, 10000)
     base = ctx.seed * 1000003 + ctx.shard * 100000
     for i in range(n):
@@ -304,6 +365,8 @@ def run(ctx):
 
 
 def replay(ctx, w):
+    if w.get('directed'):
+        return directed_case(ctx, w['directed'], w['kind'], w['prefix'])
     if w.get('concurrent_saves'):
         print('scheduler witness: re-run the check (the exploration is deterministic)')
         return
